@@ -13,12 +13,15 @@ structure Inst where
   queue : List (Bool × Wid) := []       -- (isRemove, wallet)
   rm : Option Wid := none                -- asyncRemove parked in suspend for this wallet
   quit : Bool := false                   -- close(quit) happened (until restart)
+  begun : Bool := false                  -- an asyncRemove goroutine was started since the last restart
   deriving Inhabited
 
 structure St where
   a : Inst := {}
   b : Inst := {}
   known : AMap.T Wid (List Addr) := []   -- every address ever issued to a wallet, in order (all instances)
+  minFrozen : Nat := 61440               -- consensus.MinFrozenPeriod (set by `params`)
+  dead : Bool := false                   -- a refused `submit`: the history left the modelled domain
   deriving Inhabited
 
 def init : St := {}
@@ -106,6 +109,41 @@ def instStepRest (st : St) (two : Bool) (args : List String) : St × String :=
     let (l', o) := Led.step l args
     let st := setI st two { i with led := l' }
     if o == "ok" && (AMap.get st.known w).isNone then ({ st with known := AMap.put st.known w [] }, o) else (st, o)
+  | ["tx", _, _, _, outs] =>
+    -- the harness refuses an output to an address name it does not know (owned names must have been
+    -- issued; names starting with X are strangers, created on demand)
+    let okName (a : String) : Bool := a == "raw" || a.startsWith "X" || st.known.any (fun e => e.2.contains a)
+    -- … and a staking output whose frozen period is outside [MinFrozenPeriod, 2^32 − 2]
+    let okStk (o : String) : Bool := match o.splitOn ":" with
+      | [_, _, "stk", f] => (match f.toNat? with | some n => st.minFrozen ≤ n && n ≤ 4294967294 | none => false)
+      | _ => true
+    if (Led.parseList outs).all (fun o => okName ((o.splitOn ":").headD "") && okStk o) then
+      let (l', o) := Led.step l args
+      (setI st two { i with led := l' }, o)
+    else (st, "err")
+  | ["submit", b] =>
+    -- the chain database refuses a block that spends an output which does not exist on the chain (or
+    -- earlier in the block) or is already spent there
+    match AMap.get l.node.known b with
+    | none => ({ st with dead := true }, "dead")
+    | some blk =>
+      let spentBy (txs : List Tx) (t : TxId) (k : Nat) : Bool :=
+        txs.any (fun x => !x.cb && x.ins.any (fun y => y.tx == t && y.idx == k))
+      let chainTxs := l.node.chain.flatMap (·.txs)
+      let rec okTxs (seen : List Tx) : List Tx → Bool
+        | [] => true
+        | t :: rest =>
+          (t.cb || t.ins.all (fun y =>
+            ((seen ++ chainTxs).find? (fun x => x.id == y.tx)).any (fun p => y.idx < p.outs.length) &&
+            !spentBy (seen ++ chainTxs) y.tx y.idx)) && okTxs (seen ++ [t]) rest
+      if okTxs [] blk.txs then
+        let (l', o) := Led.step l args
+        if o == "ok" then (setI st two { i with led := l' }, o) else ({ st with dead := true }, "dead")
+      else ({ st with dead := true }, "dead")
+  | ["params", _, mf] =>
+    let (l', o) := Led.step l args
+    let st := setI st two { i with led := l' }
+    (match mf.toNat? with | some n => { st with minFrozen := n } | none => st, o)
   | ["notify", b] =>
     -- Led's oracle says "ok iff the block is on the node's chain"; a (stale) notification for a block the
     -- follower itself already has at that height also succeeds: the follower steps back onto it.
@@ -135,7 +173,7 @@ def instStep (st : St) (two : Bool) (args : List String) : St × String :=
   | ["use", w] => (st, useTok (useWallet l.store l.wallets w))
   | ["restart"] =>
     let (l', o) := Led.step l ["restart"]
-    (setI st two { i with led := l', queue := [], rm := none, quit := false }, o)
+    (setI st two { i with led := l', queue := [], rm := none, quit := false, begun := false }, o)
   | ["tasks"] => (setI st two { i with queue := [] }, tasksTok i.queue)
   | ["inittasks"] =>
     -- initTaskChan: a fresh queue holding one task per wallet flagged removed / not ready
@@ -200,6 +238,7 @@ def fill (st : St) (k : Nat) (tag : String) (m : Nat) : St × String := Id.run d
 
 /-- routing: instance prefix, node-level ops, everything else through `h` -/
 def route (h : St → Bool → List String → St × String) (st : St) (args : List String) : St × String :=
+  if st.dead then (st, "dead") else
   match args with
   | "i2" :: rest =>
     match rest with
